@@ -364,6 +364,7 @@ func (w *World) judge(t *Task, o *Op, expect, expectLog string) {
 func (w *World) execOp(t *Task, idx int) {
 	o := t.ops[idx]
 	simrt.OpStart()
+	simrt.SetLabel(opLabel(o.Kind))
 	t.nops++
 	curRec[t.id] = &t.rec
 	t.rec.reset(o.Faults)
@@ -616,6 +617,17 @@ func (w *World) run() *RunResult {
 		res.Probes["task-blocked-on-mutex"] += int(st.Blocked)
 		res.Faults["lock-contention"] += int(st.Blocked)
 	}
+	for i := 0; i < 8; i++ {
+		for j := i; j < 8; j++ {
+			n := st.Overlap[i][j]
+			if i != j {
+				n += st.Overlap[j][i]
+			}
+			if n > 0 && i > 0 {
+				res.Probes["overlap:"+labelNames[i]+"||"+labelNames[j]] += int(n)
+			}
+		}
+	}
 	if st.Handover > 0 {
 		res.Probes["pool-buffer-handed-between-tasks"] += int(st.Handover)
 		res.Faults["pool-handover"] += int(st.Handover)
@@ -746,4 +758,24 @@ func drawPanics(usable uint32) (p [nFuncs]uint64) {
 	}
 	p[fs[rn(len(fs))]] = 1 << uint(rn(5))
 	return
+}
+
+var labelNames = [8]string{"idle", "Parse", "call-shared-function", "call-own-function", "Retrieve", "failing/injected-Parse", "property-specific-op", "caller-side-op"}
+
+func opLabel(k int) int {
+	switch k {
+	case opParse, opParseKept:
+		return 1
+	case opCallShared, opCallPublished:
+		return 2
+	case opCall:
+		return 3
+	case opRetrieve:
+		return 4
+	case opParseFail, opParseInject:
+		return 5
+	case opCustom:
+		return 6
+	}
+	return 7
 }
